@@ -48,7 +48,10 @@ def gen_case(st, i, tier="quick", op=None, max_dim=None):
         H = rng.choice([1, 2, 3])
     if rng.random() < 0.15:
         W = rng.choice([1, 2, 3])
-    dtype = rng.choice(g.ALL_DTYPES)
+    sweep = tier == "thorough" and rng.random() < 0.25
+    if sweep:
+        H, W = rng.randint(2, 5), rng.randint(2, 5)
+    dtype = rng.choice(g.ALL_DTYPES + ["f4", "f8", "f4", "f8"])
     params = {}
     nb = NBANDS.get(op, 1)
     geo = g.georef(rng, H, W)
@@ -122,8 +125,18 @@ def gen_case(st, i, tier="quick", op=None, max_dim=None):
     crng = st["chunks"]
     for r in rasters:
         r["chunks"] = g.chunks_for(crng, r["data"].shape)
+    if sweep:
+        # systematic sweep of the chunking axis on small rasters: the k-th sweep case of an
+        # op takes the k-th pair of compositions (a sweep of one axis inside the seeded search)
+        k = i // len(WHEEL)
+        ch = g.all_compositions(H)
+        cw = g.all_compositions(W)
+        for r in rasters:
+            r["chunks"] = [list(ch[k % len(ch)]), list(cw[(k // len(ch)) % len(cw)])]
     case = {"op": op, "params": params, "rasters": rasters,
             "dask_config": gen_dask_config(st["config"])}
+    if sweep:
+        case["sweep"] = True
     if op in ("perlin", "generate_terrain") and st["config"].random() < 0.6:
         case["dask_config"]["array.chunk-size"] = st["config"].choice(["64 B", "64 B", "200 B"])
     return case
@@ -151,4 +164,5 @@ def reach(case):
         r["has_inf"] = bool(np.isinf(d).any())
     r["int_dtype"] = d.dtype.kind in "iu"
     r["chunk_size_knob"] = "array.chunk-size" in case.get("dask_config", {})
+    r["chunk_sweep_case"] = bool(case.get("sweep"))
     return r
